@@ -371,7 +371,7 @@ def oracle(ctx, scale):
 
 def oracle_derivs(ctx, scale, rs):
     worst = [0.0, 0.0, 0.0]
-    for it in range(ctx.n(14, 120) * scale):
+    for it in range(ctx.n(10, 120) * scale):
         nw = int(rs.randint(1, 4))
         smooth = rs.rand() < 0.2
         deg = int(rs.randint(0, 5))
